@@ -217,12 +217,17 @@ def gates(ctx, R):
                     if isinstance(t, ast.Name) and t.id not in evars:
                         evars.add(t.id)
                         changed = True
-    if not evars:
+    # ... or tested where it is looked up (`if arg["extension_values"].get(v):`)
+    direct = [fc for fc in cfgv.facts() if isinstance(fact_atom(fc)[0], ast.Call) and call_name(fact_atom(fc)[0]) == "get"
+              and "extension_values" in norm(fact_atom(fc)[0].func)]
+    if not evars and not direct:
         raise AnalysisError("E4", "value helper: lookup in extension_values not recognised")
 
     def ext_found(fc):
         e, pol = fact_atom(fc)
         if isinstance(e, ast.Name) and e.id in evars and pol is True:
+            return True
+        if isinstance(e, ast.Call) and call_name(e) == "get" and "extension_values" in norm(e.func) and pol is True:
             return True
         cp = cmp_parts(e)
         if cp and cp[1] in ("In", "NotIn") and (norm(cp[2]) in evars or "extension_values" in norm(cp[2])) and not isinstance(cp[0], ast.Constant):
